@@ -137,7 +137,7 @@ class C12(Check):
     def successors(self, st):
         wk, sols = st
         allsol = self._solutions(wk)
-        step = 11
+        step = 31
         if self.tier == "quick":
             step = 7
         elif len(sols) >= 2:
